@@ -213,9 +213,9 @@ func buildCases(thorough bool) []caseT {
 					emit(append(append([]int{}, others...), io...))
 					continue
 				}
-				emit(append(append([]int{}, others...), io...))                            // others first
-				emit(append(append([]int{}, io...), others...))                            // others last
-				emit(append(append(append([]int{}, io[0]), others...), io[1:]...))         // others after the first identity key
+				emit(append(append([]int{}, others...), io...))                    // others first
+				emit(append(append([]int{}, io...), others...))                    // others last
+				emit(append(append(append([]int{}, io[0]), others...), io[1:]...)) // others after the first identity key
 			}
 			return
 		}
